@@ -224,7 +224,9 @@ def run(ctx, prop, shapes=None, strategies=('default',), focus=None):
                 owner = 'C23'
             if category == 'crash':
                 owner = prop     # an unexpected exception inside pony concerns every property of the session model
-            if category == 'crash' and 'FOREIGN KEY constraint failed' in what and repointed_then_deleted(trace):
+            fk_failure = (category == 'crash' and 'FOREIGN KEY constraint failed' in what) or \
+                         (category in ('keys', 'flush', 'commit') and 'pony -> Integrity' in what)
+            if fk_failure and repointed_then_deleted(trace):
                 # recorded finding (C16): the signature names the history, not the shape it happened to be met in
                 ctx.mismatch('%s:flush-order:repointed-dependent-deleted-after-its-old-parent' % prop,
                              'shape %s, strategy %s: %s' % (r['shape'], r['strategy'], what),
